@@ -61,6 +61,11 @@ def cells(tier, seed):
     # loaded again afterwards; every loader return is judged by the contracts
     for k in range(6 if tier == 'quick' else 24):
         out.append({'table': '*', 'threads': [1, 1, 2, 4][k % 4], 'warm': False, 'order': seed * 100 + k})
+    # cold races: many threads start together on an emptied cache, each with a different table first, under
+    # injected pre-emption between the statements of the loader (what two modules constructed concurrently do)
+    for k in range(4 if tier == 'quick' else 24):
+        out.append({'table': '*', 'threads': [8, 12][k % 2], 'warm': False, 'order': seed * 100 + 50 + k, 'race': True,
+                    'rounds': 12 if tier == 'quick' else 40, 'p_yield': [0.3, 0.1, 0.6, 0.0][k % 4]})
     return out
 
 
@@ -234,11 +239,34 @@ def all_tables_cell(cell, seed):
             return 'qshift', (lambda: coeffs.qshift(n))
         return 'level1', (lambda: coeffs.level1(n, compact=False))
 
+    race = bool(cell.get('race'))
+    if race:
+        from .. import inject
+        import sys
+        inject.enable()
+        sys.setswitchinterval(1e-5)
+
+        def fresh_round():
+            cache.clear()
+            if hasattr(cache, 'digests'):
+                cache.digests.clear()
+        barrier = threading.Barrier(cell['threads'], action=fresh_round)
+
     def work(tid):
         rnd = random.Random(cell['order'] * 31 + tid)
-        for rep in range(3):
+        if race:
+            inject.thread_init(cell['order'] * 131 + tid, cell.get('p_yield', 0.3))
+        for rep in range(cell.get('rounds', 3)):
             order = list(names)
             rnd.shuffle(order)
+            if race:
+                # every thread starts the round with another table, all of them not yet cached
+                first_ = names[(tid + rep) % len(names)]
+                order = [first_] + [n for n in order if n != first_][:3]
+                try:
+                    barrier.wait(timeout=120)
+                except threading.BrokenBarrierError:
+                    return
             for n in order:
                 ln, fn = loader_for(n)
                 try:
@@ -259,6 +287,8 @@ def all_tables_cell(cell, seed):
             t.start()
         for t in ths:
             t.join()
+    if race:
+        sys.setswitchinterval(0.005)
     out = []
     base = {'cell': cell}
     for o in list(_OBS):
